@@ -390,6 +390,8 @@ def run_sched(case, fs):
                                    'isolated': want,
                                    'evaluations_of_this_cell_before': n_before}}
                 break
+        stats['sim_clock_seconds'] = int(amb.clock.advanced)
+        stats['clock_reads'] = amb.clock.reads
     nontrivial = any(world['level'].get(a, 0) > 0 and n > 1
                      for (c, a), n in seen_eval.items())
     return {'viol': viol, 'log': log, 'stats': stats, 'cover': [],
